@@ -184,14 +184,23 @@ def run(chk: Check) -> None:
     def hx(b: bytes) -> str:
         return b.hex().upper()
 
+    def norm_of(raw: bytes) -> str:
+        """the clean-up both the serial and the MQTT path apply to a line; it is total (whatever the bytes)"""
+        try:
+            return "ok\t" + esc(_normalise(_str(raw)))
+        except Exception as e:  # noqa: BLE001
+            chk.violation(f"recv.normalise.raises:{type(e).__name__}", f"_normalise(_str({raw!r})) raised {e!r}", {"op": "recv.norm", "bytes": raw.hex()})
+            return "err\t" + exn_tag(e)
+
     for fr in base[:2000]:
         raw = f"045 {fr}".encode()
         for variant in (raw + b"\r\n", b"\r" + raw + b"\r\n", raw + b"\r\r\n", b" 000 " + fr.encode() + b"\r\n", fr.encode() + b"\r\n",
                         raw[:10] + bytes([rnd.randrange(256)]) + raw[10:] + b"\r\n", b"\x00" + raw + b"\x07\r\n"):
             chk.evaluations += 1
-            D.add("recv.norm", [hx(variant)], "ok\t" + esc(_normalise(_str(variant))))
-    for v in (b"045  I --- 08:000001 --:------ 01:145038 0008 002 0000 * Checksum error\r\n", b"\r\r\r\n", b"   \r\n", b"\xff\xfe\r\n"):
-        D.add("recv.norm", [hx(v)], "ok\t" + esc(_normalise(_str(v))))
+            D.add("recv.norm", [hx(variant)], norm_of(variant))
+    for v in (b"045  I --- 08:000001 --:------ 01:145038 0008 002 0000 * Checksum error\r\n", b"\r\r\r\n", b"   \r\n", b"\xff\xfe\r\n",
+              b"045 \x80 I --- 08:000001 --:------ 01:145038 0008 002 0000\r\n", b"\x80\r\n", b"", b"\r\n"):
+        D.add("recv.norm", [hx(v)], norm_of(v))
 
     async def serial_part() -> None:
         rig_ro = rt.PortRig()
